@@ -969,7 +969,7 @@ impl World for C18 {
         format!("{class}/{}/{}", scn.codec.name(), type_name(scn).split(' ').next().unwrap_or(""))
     }
     fn rule(&self) -> String {
-        format!("({BUILD} build) Each run: one value of one of the 85 serializable type instantiations (Knot; Poly0..8, Log<Poly0..8>, IntOfLog<Poly0..8>, IntOfLogPoly4; Segment<X> and Piecewise<X> over those 28 piece types, 0-40 segments) with numbers drawn from random bit patterns, subnormals, +-0.0, extremes, hard decimal cases and (binary codecs) +-inf, never NaN; one codec ({}); first a fault-free transfer (to_vec/from_slice), then a transfer over the simulated pipe with a seeded maximum of bytes per write/read (1..4096) and a seeded rate of Interrupted results on both ends. Judged: value equal and bit-identical after both transfers (wire bytes differing between the two transfers are counted, not judged). distinct = distinct (type instantiation, codec, segment count, pipe parameters); non-trivial = the value holds >= 2 numbers. Corrupting faults (truncation, bit flip in flight) are tallied under counters.info_*, never judged.", { let mut n: Vec<&str> = codecs().iter().map(|c| c.name()).collect(); n.dedup(); n.join(", ") })
+        format!("({BUILD} build) Each run: one value of one of the 88 serializable type instantiations (Knot; Poly0..8, Log<Poly0..8>, IntOfLog<Poly0..8>, IntOfLogPoly4 and a nested Piecewise<Poly0> piece; Segment<X> and Piecewise<X> over those 29 piece types, 0-300 segments and a few threshold lengths up to 65 537), bare or inside Vec/Option/tuple/Box, with numbers drawn from random bit patterns, subnormals, +-0.0, extremes, hard decimal cases and (binary codecs) +-inf, never NaN; one codec ({}); first a fault-free transfer (to_vec/from_slice), then a transfer over the simulated pipe with a seeded maximum of bytes per write/read (1..4096) and a seeded rate of Interrupted results on both ends. Judged: value equal and bit-identical after both transfers (wire bytes differing between the two transfers are counted, not judged). distinct = distinct (type instantiation, codec, segment count, pipe parameters); non-trivial = the value holds >= 2 numbers. Corrupting faults (truncation, bit flip in flight) are tallied under counters.info_*, never judged.", { let mut n: Vec<&str> = codecs().iter().map(|c| c.name()).collect(); n.dedup(); n.join(", ") })
     }
     fn assumptions(&self) -> Vec<String> {
         vec![
